@@ -183,10 +183,14 @@ theorem arity_enforced (n : Nat) :
 theorem arity_free (a p : List String) (ha : ∀ t ∈ a, Plain t) (hp : "--" ∉ p) :
     baseAtoms none (a ++ "--" :: p) = some (a.map (fun t => (t, none)), p) := C13.arity_free a p ha hp
 
-/-- what the code does NOT reject (reported as F-C13-7): more than `n` atoms before `--` -/
-theorem arity_excess_before_delimiter_accepted :
-    baseAtoms (some 2) ["A", "B", "C", "--", "1"] = some ([("A", none), ("B", none)], ["C", "--", "1"]) :=
-  C13.arity_delimiter_excess_accepted
+/-- more than `n` plain atoms before `--` are rejected (repair of F-C13-7; before it the surplus and the
+delimiter were loaded as parameters) -/
+theorem arity_excess_before_delimiter_rejected (n : Nat) (a p : List String) (ha : ∀ t ∈ a, Plain t)
+    (hlen : n < a.length) : baseAtoms (some n) (a ++ "--" :: p) = none :=
+  C13.arity_delimiter_excess_rejected n a p ha hlen
+
+example : baseAtoms (some 2) ["A", "B", "C", "--", "1"] = none := by decide
+example : baseAtoms (some 2) ["A", "B", "--", "1"] = some ([("A", none), ("B", none)], ["1"]) := by decide
 
 /-- **Mapping weights**: weight(to, from) = multiplicity of `to` on the line of `from` / number of
 entries without `!` on that line; a `!` entry has weight 0; any other pair has no weight. -/
